@@ -195,7 +195,7 @@ def _run_cases(rep, pools, driver, cases, probe=False):
                     len(vals) - len(bad), n_out, float(want), [(k, float(vals[k])) for k in bad[:3]])
         if d is not None:
             steps = 0
-            if not probe and shrunk < 3 and L.compare(impl, model) is not None:
+            if not probe and shrunk < 3 and L.compare(impl, model) is not None and impl.get('err') != 'Timeout':
                 # greedy shrink (events, tokens, configuration) in the pool of the same hash seed
                 shrunk += 1
                 small, steps = L.shrink(pools[hs], driver, c, m, budget=40)
